@@ -96,6 +96,88 @@ theorem natStr_spec (n : Nat) :
   have := natDigitsAux_spec (n + 1) n [] (by omega) (by intro c hc; cases hc)
   simpa [natStr, digitsVal_nil] using this
 
+/-- the accumulator loop does not depend on the fuel (once sufficient) and appends to the accumulator -/
+theorem natDigitsAux_acc (n : Nat) : ∀ (fuel : Nat) (acc : Str), n < fuel →
+    natDigitsAux fuel n acc = natStr n ++ acc := by
+  induction n using Nat.strongRecOn with
+  | _ n ih =>
+    intro fuel acc hf
+    cases fuel with
+    | zero => omega
+    | succ f =>
+      unfold natStr
+      by_cases h0 : n / 10 = 0
+      · simp [natDigitsAux, h0]
+      · have hlt : n / 10 < n := by omega
+        have h1 : natDigitsAux (f + 1) n acc = natDigitsAux f (n / 10) (Char.ofNat (48 + n % 10) :: acc) := by
+          simp [natDigitsAux, h0]
+        have h2 : natDigitsAux (n + 1) n [] = natDigitsAux n (n / 10) [Char.ofNat (48 + n % 10)] := by
+          simp [natDigitsAux, h0]
+        rw [h1, h2, ih (n / 10) hlt f _ (by omega), ih (n / 10) hlt n _ (by omega)]
+        simp
+
+/-- `str(10 * n + d) = str(n) + digit(d)` for `n > 0` -/
+theorem natStr_step (n d : Nat) (hn : 0 < n) (hd : d < 10) :
+    natStr (10 * n + d) = natStr n ++ [Char.ofNat (48 + d)] := by
+  have h0 : (10 * n + d) / 10 = n := by omega
+  have hm : (10 * n + d) % 10 = d := by omega
+  have hne : ¬ (10 * n + d) / 10 = 0 := by omega
+  have : natStr (10 * n + d) = natDigitsAux (10 * n + d) n [Char.ofNat (48 + d)] := by
+    unfold natStr
+    simp [natDigitsAux, h0, hm, hne]
+    omega
+  rw [this, natDigitsAux_acc n _ _ (by omega)]
+
+/-- trailing zeros: `str(n * 10^j) = str(n) + "0" * j` for `n > 0` -/
+theorem natStr_mul_pow10 (n j : Nat) (hn : 0 < n) :
+    natStr (n * 10 ^ j) = natStr n ++ List.replicate j '0' := by
+  induction j with
+  | zero => simp
+  | succ j ih =>
+    have hpos : 0 < n * 10 ^ j := Nat.mul_pos hn (Nat.pow_pos (by omega))
+    have e : n * 10 ^ (j + 1) = 10 * (n * 10 ^ j) + 0 := by rw [Nat.pow_succ]; grind
+    rw [e, natStr_step _ 0 hpos (by omega), ih, List.replicate_succ']
+    simp
+
+/-- a number below `10^k` has at most `k` digits -/
+theorem natStr_length_le (k : Nat) : ∀ n, n < 10 ^ k → 1 ≤ k → (natStr n).length ≤ k := by
+  induction k with
+  | zero => intro n _ h; omega
+  | succ k ih =>
+    intro n hn _
+    by_cases hq : n / 10 = 0
+    · have : natStr n = [Char.ofNat (48 + n % 10)] := by
+        unfold natStr; simp [natDigitsAux, hq]
+      rw [this]; simp
+    · have hk : 1 ≤ k := by
+        cases k with
+        | zero => simp at hn; omega
+        | succ k => omega
+      have hlt : n / 10 < 10 ^ k := by
+        rw [Nat.pow_succ] at hn; omega
+      have e : n = 10 * (n / 10) + n % 10 := by omega
+      rw [e, natStr_step _ _ (by omega) (by omega)]
+      have := ih (n / 10) hlt hk
+      simp; omega
+
+/-- a number of at least `10^k` has more than `k` digits -/
+theorem natStr_length_gt (k : Nat) : ∀ n, 10 ^ k ≤ n → k < (natStr n).length := by
+  induction k with
+  | zero =>
+    intro n _
+    have := (natStr_spec n).2.1
+    cases h : natStr n with
+    | nil => exact absurd h this
+    | cons a r => simp
+  | succ k ih =>
+    intro n hn
+    have h10 : 10 ^ k ≤ n / 10 := by rw [Nat.pow_succ] at hn; omega
+    have hpos : 0 < n / 10 := Nat.lt_of_lt_of_le (Nat.pow_pos (by omega)) h10
+    have e : n = 10 * (n / 10) + n % 10 := by omega
+    rw [e, natStr_step _ _ hpos (by omega)]
+    have := ih (n / 10) h10
+    simp; omega
+
 /-- `intBody` on a run of ASCII digits -/
 theorem intBody_digits (e : Env) (cs : Str) (prev : Bool) (h : AllDigits cs) (hne : cs ≠ [] ∨ prev = true) :
     intBody e cs prev = some (cs.map charVal) := by
